@@ -241,6 +241,42 @@ Example C12_sequence_with_different_missing_attributes :
   format_seq x_q_pat 3 [msg0 Info [109] []; msg0 Info [109] [([97], AStr [65])]; msg0 Info [109] []] = [x_q_o1; x_q_o2; x_q_o1].
 Proof. vm_compute. reflexivity. Qed.
 
+(* ---- 4c. %{time <format>}: the text is that of the message at hand, call after call ----
+   [mtime m f] stands for what the environment (QDateTime::toString of m's time stamp with format f, or the
+   process-/boot-relative seconds of m's steady-clock stamp) renders for message m.  A time token contributes
+   exactly this text (padded by its format spec, under its type condition) - for every call on the same object,
+   whatever was formatted before: two messages of the same clock second that differ in their milliseconds get
+   their own milliseconds.  The correspondence leg formats sequences of messages constructed a few milliseconds
+   apart (inside one second and across a second boundary) on one real object and computes [mtime] from the
+   message's own time stamps, without the formatter under test. *)
+Theorem C12_time_token_prints_the_time_of_the_message : forall f c sp m,
+  format_model [time_tok f c sp] m = if cond_ok m (time_tok f c sp) then pad sp (mtime m f) else [].
+Proof. exact (time_token_text C12_source_removal_is_out_of_band). Qed.
+Print Assumptions C12_time_token_prints_the_time_of_the_message.
+Theorem C12_time_text_is_that_of_the_message_at_hand : forall p leftover history m later f c sp,
+  parse_pattern p = [time_tok f c sp] ->
+  nth_error (format_seq p leftover (history ++ m :: later)) (length history)
+  = Some (if cond_ok m (time_tok f c sp) then pad sp (mtime m f) else []).
+Proof. exact (time_seq_nth C12_source_removal_is_out_of_band). Qed.
+Print Assumptions C12_time_text_is_that_of_the_message_at_hand.
+Theorem C12_time_token_piece : forall f c sp m, piece m (time_tok f c sp) = pad sp (mtime m f).
+Proof. exact time_piece. Qed.
+Print Assumptions C12_time_token_piece.
+(* not vacuous: a token that re-renders only when a key of the message (its clock second) changes gives the second
+   of two messages with the same key the first one's text *)
+Theorem C12_time_text_kept_per_key_is_refuted : forall key f a b, key a = key b -> mtime a f <> mtime b f ->
+  fst (time_cached_call key f (snd (time_cached_call key f None a)) b) = mtime a f /\
+  fst (time_cached_call key f (snd (time_cached_call key f None a)) b) <> mtime b f.
+Proof. exact time_cached_refuted. Qed.
+Print Assumptions C12_time_text_kept_per_key_is_refuted.
+(* "%{time zzz}" on one object: messages stamped .198 and .238 of the same second (and .198 again) *)
+Example C12_time_sequence_within_one_second :
+  parse_pattern x_tz_pat = [time_tok x_zzz None None] /\
+  format_seq x_tz_pat 3 [msg_at Info 29 x_198; msg_at Warning 29 x_238; msg_at Info 29 x_198] = [x_198; x_238; x_198] /\
+  format_seq x_tzw_pat 0 [msg_at Info 29 x_198; msg_at Warning 29 x_238] = [[91;48;48;48] ++ x_198 ++ [93]; [91;48;48;48] ++ x_238 ++ [93]] /\
+  fst (time_cached_call (fun m => Z.to_N (mline m)) x_zzz (snd (time_cached_call (fun m => Z.to_N (mline m)) x_zzz None (msg_at Info 29 x_198))) (msg_at Warning 29 x_238)) = x_198.
+Proof. vm_compute. repeat split. Qed.
+
 (* ---- 5. the repaired defect (DESIGN section 5, F4): the in-band marker evaluator is refuted ---- *)
 Theorem C12_inband_refuted_zero_width_space : exists p m,
   format_inband zwsp (parse_pattern p) m <> format_oob (parse_pattern p) m /\
